@@ -400,15 +400,16 @@ func checkC09(w *World, r *Report) {
 	}
 
 	// 6. Load reads exactly the published path with the same codec; not-exist → empty state
-	var load *ssa.Function
+	var load, splitLoad *ssa.Function
 	for _, fn := range storeFuncs {
 		if fn.Parent() == nil && fn.Signature.Recv() != nil && pub.Signature.Recv() != nil && fn.Signature.Recv().Type().String() == pub.Signature.Recv().Type().String() {
-			if len(findCalls(fn, func(n string, _ *ssa.CallCommon) bool { return isOSFunc(n, "Open") })) > 0 {
+			if len(findCalls(fn, func(n string, _ *ssa.CallCommon) bool { return isOSFunc(n, "Open") })) > 0 && splitLoad == nil {
 				load = fn
 			}
-			// split form: the exported method that reaches os.Open through helpers of the package
+			// split form: the exported method that reaches os.Open through helpers of the package (it wins over the helper
+			// that holds the open call itself)
 			if len(splitRegion) > 0 && fn != pub && fn.Object() != nil && fn.Object().Exported() && c09OpensOnPaths(w, fn, storeFuncs) != nil {
-				load = fn
+				load, splitLoad = fn, fn
 			}
 		}
 	}
